@@ -28,7 +28,7 @@ def main():
     out = subprocess.run([binp, "refdump"], stdout=subprocess.PIPE, text=True, check=True).stdout
     n = bad = 0
     for line in out.splitlines():
-        f = line.split(" ")
+        f = ["" if x == "-" else x for x in line.split(" ")]
         kind = f[0]
         n += 1
         try:
